@@ -46,6 +46,9 @@ type c17Case struct {
 	// Ref: the secret provider is the reference configuration loader, given the same context as
 	// Serve (as cmds/server/main.go does), and the handlers are the reference handlers
 	Ref bool `json:"ref,omitempty"`
+	// CallerCloses: whoever cancels the context also closes the listener (to wake a blocked Accept), so
+	// the server's own Close of the listener reports an error
+	CallerCloses bool `json:"caller_closes,omitempty"`
 }
 
 func genC17(t *rapid.T) c17Case {
@@ -54,6 +57,7 @@ func genC17(t *rapid.T) c17Case {
 		Procs:  rapid.SampledFrom([]int{0, 1, 2}).Draw(t, "procs"),
 		Ref:    rapid.IntRange(0, 3).Draw(t, "ref_stack") == 0,
 	}
+	c.CallerCloses = rapid.IntRange(0, 3).Draw(t, "caller_closes_listener") == 0
 	n := rapid.IntRange(0, 5).Draw(t, "nconns")
 	if c.Cancel == "in-accept" || c.Cancel == "in-handler" {
 		if n == 0 {
@@ -159,6 +163,10 @@ func runC17(t failer, c c17Case) {
 			cancelled = true
 			log.Add(transport.EvCancel, -1, 0, nil, "")
 			cancelCtx()
+			if c.CallerCloses {
+				ev.Class("listener-also-closed-by-the-caller")
+				_ = ln.Close()
+			}
 		}
 	}
 	if c.Cancel == "before-accept" {
